@@ -162,6 +162,89 @@ def _same(a, b):
     return True  # non-array intermediates are not compared
 
 
+class Interleaver:
+    """F7: run two task functions 'concurrently' with every interleaving decision
+    taken by the simulator.  Each function runs in its own real thread, but only
+    the thread holding the baton runs: a sys.settrace hook stops the thread at
+    every *line event inside the watched source files* (xgcm and the generated
+    user ufuncs) and hands the baton back; the seeded PRNG decides who continues.
+    Between two line events a thread runs uninterrupted, so one execution is
+    exactly repeatable.  This exposes task functions that communicate through
+    shared module-level state (scratch buffers, caches) - something a serial
+    schedule can never show."""
+
+    def __init__(self, rng, watch_prefixes, max_steps=20000):
+        self.rng = rng
+        self.watch = tuple(watch_prefixes)
+        self.max_steps = max_steps
+        self.switches = 0
+
+    def run(self, fns):
+        import sys
+        import threading
+
+        n = len(fns)
+        go = [threading.Event() for _ in range(n)]
+        stopped = [threading.Event() for _ in range(n)]
+        done = [False] * n
+        result = [None] * n
+        error = [None] * n
+        watch = self.watch
+
+        def make(i):
+            def local(frame, event, arg):
+                if event == "line":
+                    stopped[i].set()
+                    go[i].wait()
+                    go[i].clear()
+                return local
+
+            def tracer(frame, event, arg):
+                if frame.f_code.co_filename.startswith(watch):
+                    return local
+                return None
+
+            def target():
+                go[i].wait()
+                go[i].clear()
+                sys.settrace(tracer)
+                try:
+                    result[i] = fns[i]()
+                except BaseException as e:  # noqa
+                    error[i] = e
+                finally:
+                    sys.settrace(None)
+                    done[i] = True
+                    stopped[i].set()
+
+            return target
+
+        threads = [threading.Thread(target=make(i), daemon=True) for i in range(n)]
+        for t in threads:
+            t.start()
+        steps = 0
+        last = None
+        while not all(done):
+            steps += 1
+            if steps > self.max_steps:
+                raise RuntimeError("Interleaver: step cap exceeded (harness bug)")
+            alive = [i for i in range(n) if not done[i]]
+            i = alive[self.rng.randrange(len(alive))]
+            if last is not None and i != last:
+                self.switches += 1
+            last = i
+            stopped[i].clear()
+            go[i].set()
+            if not stopped[i].wait(timeout=120):
+                raise RuntimeError("Interleaver: task thread did not yield (harness bug)")
+        for t in threads:
+            t.join(timeout=10)
+        for e in error:
+            if e is not None:
+                raise e
+        return result
+
+
 class SimScheduler:
     def __init__(self, seed=0, policy="random", faults=None, max_log=4000):
         self.rng = random.Random(seed)
@@ -171,11 +254,13 @@ class SimScheduler:
         self.p_evict = float(f.get("evict", 0.0))
         self.readonly = bool(f.get("ro", False))
         self.copy = bool(f.get("copy", False))
+        self.p_conc = float(f.get("conc", 0.0))
+        self.watch = tuple(f.get("watch", ()))
         self.phase = "compute"
         self.invocations = 0
         self.build_invocations = 0
         self.fired = {"dup": 0, "evict": 0, "recompute": 0, "ro_delivery": 0, "copy_delivery": 0,
-                      "dup_mismatch": 0, "hazard_mutated_result": 0}
+                      "dup_mismatch": 0, "hazard_mutated_result": 0, "conc_pairs": 0, "conc_switches": 0}
         self.tasks_executed = 0
         self.max_ready = 0
         self.choice_points = 0
@@ -313,9 +398,29 @@ class SimScheduler:
                 self.fired["recompute"] += 1
             node = g[k]
             args = {d: self._deliver(results[d]) for d in deps[k]}
-            r = node(args)
-            self.tasks_executed += 1
-            self._log("run", labels[k], "again" if recompute else "")
+            partner = None
+            if self.p_conc > 0 and len(ready) > 1 and self.rng.random() < self.p_conc:
+                others = [x for x in ready if x != k]
+                partner = others[self.rng.randrange(len(others))]
+            if partner is not None:
+                # F7: k and partner run as two concurrent tasks, interleaved line by line
+                pargs = {d: self._deliver(results[d]) for d in deps[partner]}
+                il = Interleaver(self.rng, self.watch)
+                r, rp = il.run([lambda: node(args), lambda: g[partner](pargs)])
+                self.fired["conc_pairs"] += 1
+                self.fired["conc_switches"] += il.switches
+                self.tasks_executed += 2
+                self._log("run-pair", labels[k], labels[partner], il.switches)
+                results[partner] = rp
+                need.discard(partner)
+                cs = _checksum(rp)
+                if cs is not None:
+                    sums[partner] = cs
+                done.add(partner)
+            else:
+                r = node(args)
+                self.tasks_executed += 1
+                self._log("run", labels[k], "again" if recompute else "")
             # ---- F1 duplicate execution
             if self.p_dup > 0 and self.rng.random() < self.p_dup:
                 self.fired["dup"] += 1
@@ -337,7 +442,7 @@ class SimScheduler:
                 sums[k] = cs
             done.add(k)
             # ---- hazard probe + release of results nobody needs any more
-            for d in deps[k]:
+            for d in list(deps[k]) + (list(deps[partner]) if partner is not None else []):
                 if d in results and d not in wantset and all(c in done and c not in need for c in dependents[d]):
                     cs = _checksum(results[d])
                     if cs is not None and sums.get(d) not in (None, cs):
